@@ -34,7 +34,7 @@ SPECS = {
         ],
     },
     "C01": {
-        "id": "C01", "runners": ["RunC01"],
+        "id": "C01", "runners": ["RunC01"], "translators": [translate.serializer_tables],
         "partial": ["C01_full (decode = interp) is a theorem only for integer columns; all other kinds: per-case specification oracle + byte-exact model comparison"],
         "info_meaning": "[cases whose schema is inside the builder model (compared array by array, byte for byte); cases with impl Ok fully judged by decode = interp]",
         "assumptions": [
@@ -65,7 +65,7 @@ SPECS = {
         "assumptions": ["AddrOk: two &'static str with equal address and length have equal content (Rust statics)"],
     },
     "C02": {
-        "id": "C02", "runners": ["RunC02"],
+        "id": "C02", "runners": ["RunC02"], "translators": [translate.serializer_tables],
         "info_meaning": "[single-row reads judged against present(decode view)[i]]",
         "assumptions": ["valid views are windows (Arrow slice layout) of arrays produced by the writer and arrow-rs built/sliced arrays; hand-corrupted views are C17", "reads go through deserialize_any (self-describing) with a recording probe; typed requests are covered by C04/C05"],
     },
@@ -100,7 +100,7 @@ SPECS = {
         "assumptions": ["annotations are read from the Display text of the error (the only public view of them)", "the data_type text is the one the Context impl of the builder/reader sets (List vs List(..) differ between the two sides; both name the Arrow type)", "top-level field names are joined raw by the builders ($. for an empty name) and through ChildName by the readers ($.<empty>)"],
     },
     "C05": {
-        "id": "C05", "runners": ["RunC05"],
+        "id": "C05", "runners": ["RunC05"], "translators": [translate.serializer_tables],
         "info_meaning": "[writing cells; writing cells inside the builder model; reading cells]",
         "assumptions": ["documented lossy conversions (float narrowing, integer to float, decimal truncation to scale) are the ISkip cells of interp and are not judged here", "malformed temporal / decimal strings are judged in C14 / C15; offsets overflow of 32-bit lists needs 2^31 elements and is covered by the theorem on increment_last only"],
     },
